@@ -4,6 +4,7 @@ import (
 	"encoding/json"
 	"fmt"
 	"os"
+	"os/exec"
 	"path/filepath"
 	"sort"
 	"strconv"
@@ -24,8 +25,17 @@ type InvProp struct {
 	Passes      []InvPass `json:"passes"`
 	TrustedBase []string  `json:"trusted_base"`
 	Assumptions []string  `json:"assumptions"`
-	Bounded     []string  `json:"bounded_cmds"`
+	Bounded     []BoundedCmd `json:"bounded_cmds"`
 	Scans       []string  `json:"scans"`
+}
+
+// BoundedCmd: a bounded (or, where the domain is finite, exhaustive) evaluation that stands behind a
+// trusted lemma; reported under coverage.bounded, never counted as a discharged obligation.
+type BoundedCmd struct {
+	Name  string `json:"name"`
+	What  string `json:"what"`
+	Bound string `json:"bound"`
+	Cmd   string `json:"cmd"`
 }
 
 type KnownFinding struct {
@@ -134,10 +144,10 @@ func cmdCheck(args []string) int {
 	} else {
 		fmt.Fprintln(os.Stderr, "work dir:", work)
 	}
-	cfg := solveCfg{workDir: work, incTimeoutMs: 4000, raceTimeoutS: 30, keep: keep}
+	cfg := solveCfg{workDir: work, incTimeoutMs: 4000, raceTimeoutS: 90, keep: keep}
 	if tier == "thorough" {
 		cfg.incTimeoutMs = 20000
-		cfg.raceTimeoutS = 120
+		cfg.raceTimeoutS = 300
 	}
 	res := runProperty(prop, ip, repo, only, cfg)
 	res.wall = time.Since(t0).Seconds()
@@ -381,6 +391,26 @@ func report(prop, tier string, seed int, ip *InvProp, res *checkResult, partial 
 		}
 		funcs = append(funcs, ef)
 	}
+	var bounded []map[string]interface{}
+	if !partial {
+		for _, bc := range ip.Bounded {
+			t0 := time.Now()
+			cmd := exec.Command("sh", "-c", bc.Cmd)
+			cmd.Dir = verifDir
+			cmd.Env = append(os.Environ(), "GOFLAGS=-mod=mod", "GOPROXY=off", "GOSUMDB=off", "GOTOOLCHAIN=local")
+			out, err := cmd.CombinedOutput()
+			cases := 0
+			for _, l := range strings.Split(string(out), "\n") {
+				if strings.HasPrefix(l, "cases=") {
+					cases, _ = strconv.Atoi(strings.TrimPrefix(l, "cases="))
+				}
+			}
+			bounded = append(bounded, map[string]interface{}{"what": bc.What, "bound": bc.Bound, "cases": cases, "ok": err == nil, "seconds": time.Since(t0).Seconds(), "cmd": bc.Cmd})
+			if err != nil {
+				addViol("bounded:"+bc.Name, map[string]interface{}{"error": "bounded evaluation behind a trusted lemma failed", "what": bc.What, "output": truncate(string(out), 2000)}, true)
+			}
+		}
+	}
 	for _, t := range ip.TrustedBase {
 		trusted[t] = true
 	}
@@ -412,6 +442,7 @@ func report(prop, tier string, seed int, ip *InvProp, res *checkResult, partial 
 			"samples":      samples,
 			"solver_seconds": solverSecs,
 			"back_end":     "SMT (z3-new incremental per function; z3-new / z3 / cvc5 raced on what remains)",
+			"bounded":      bounded,
 		},
 		"assumptions": assumptions,
 	}
